@@ -19,6 +19,7 @@ import tempfile
 
 from harness import core
 from harness.core import enc_str, enc_strs, enc_val
+from harness import translate_py_esc as tresc
 
 MANIFEST = dict(
     category="proof",
@@ -81,7 +82,13 @@ MANIFEST = dict(
          "(C17_split_maxsplit_real_cuts_cex and C17_split_real_cuts_partial are replaced by the main theorem). On the implementation: "
          "stream esc.split (+ /edge, /exhaustive, /real-cuts: the former class included) ties the model to the code, esc.ref ties Lean "
          "splitRef to its Python transcription ref_split, esc.cls Lean escWithin to the harness transcription, and evaluators spec / "
-         "real_cuts check the code = the reference on EVERY input (no suppression).",
+         "real_cuts check the code = the reference on EVERY input (no suppression). "
+         "SECOND TIE for split_with_escape: harness/translate_py_esc.py re-translates the source (the while True / for-enumerate-else / break loop, "
+         "item and slice assignment, pop, endswith, the takewhile count, slices) into Lean on every run (Gen/EscPy.lean) and Lean re-checks "
+         "C17_generated_for_eq (for loop over the translated body = Esc.forScan), C17_generated_else_eq (= Esc.finalTrim), C17_generated_while_eq "
+         "(= Esc.whileLoop, every fuel), C17_generated_split_eq (translated function = Esc.splitWithEscapeD, every input and fuel) and "
+         "C17_generated_split_is_reference; a change of split_with_escape changes the generated text and either keeps these equalities or fails "
+         "a proof obligation (code outside the translated subset: broken tie).",
     note="unescape is modelled as latin-1/backslashreplace encoding followed by CPython's unicode_escape decoder (validated by stream esc.unesc); "
          "upper()/lower() only for ASCII (otherwise unsupported); str.isnumeric() above U+007F is a table (Unicode 15.0) validated at every boundary "
          "by stream ini.isnum; floats are opaque lexemes. No open finding (C17-j - escape character + maxsplit >= 1 + an escaped delimiter among the first maxsplit delimiters - is fixed by fixes/C17-j.patch and the model, the loop proofs and the main theorem follow the patched code); fixes proposed in this round: C17-e (non-ASCII text through unescape), "
@@ -89,6 +96,26 @@ MANIFEST = dict(
          "Default values that are numbers / bools are outside the model (Option Str) and covered by the evaluators default and dict_roundtrip/flags only.",
     design_ref="5/C17",
 )
+
+# ---------------------------------------------------------------------------
+# translator hook (A.1): regenerate Gen/EscPy.lean from the source under test
+# ---------------------------------------------------------------------------
+def translate(ctx):
+    info = {"file": "lean/N0Verif/Gen/EscPy.lean", "source": tresc.SRC, "translator": "harness/translate_py_esc.py"}
+    try:
+        legend, changed, differs = tresc.regenerate(core.REPO)
+        info.update(names=legend, regenerated_text_changed=changed, differs_from_unchanged_code=differs)
+        if differs:
+            rc, out = core.sh(["lake", "build", "N0Verif.Gen.EscPy"], cwd=core.LEAN_DIR)
+            if rc != 0:
+                raise tresc.TranslateError("Lean rejects the generated definitions: " + out[-600:])
+    except tresc.TranslateError as e:
+        # the code left the translated subset: the tie is broken, not the infrastructure; keep the text of the unchanged code
+        ctx.tie_broken.append({"tie": "translator harness/translate_py_esc.py (Python subset -> Lean)", "detail": str(e)})
+        tresc.restore_baseline()
+        info.update(error=str(e), restored="text generated from the unchanged code")
+    ctx.extra["translated"] = info
+
 
 DELIMS = [";", ",", "|", "\t", "::", "=>"]
 ODD_DELIMS = [";\\", "\\", "a;", "!"]
@@ -1178,6 +1205,15 @@ def witness_fails(finding):
 
 # ---------------------------------------------------------------------------
 def run(ctx):
+    if ctx.proof is not None and getattr(ctx.proof, "failed", None):
+        import re
+
+        log = ctx.proof.build_log or ""
+        ctx.extra["proof_step"] = {
+            "modules_with_errors": sorted(set(re.findall(r"^- (N0Verif\.\S+)", log, re.M))),
+            "first_errors": [l[:240] for l in log.split("\n") if l.startswith("error: N0Verif")][:6],
+            "generated_text_differs_from_unchanged_code": ctx.extra.get("translated", {}).get("differs_from_unchanged_code"),
+        }
     n = ctx.budget(3000, 60000)
 
     # ---- B1: split_with_escape, random
